@@ -343,3 +343,16 @@ func VH_C09_reparent(kind, route int) {
 	}
 	vreach("end")
 }
+
+// VH_C09_list_loop: a parent chain that loops back is an error for every operation that
+// walks it — also for the inherited rule listing (which used to answer with a partial list).
+func VH_C09_list_loop(kind int) {
+	f := vhNewForest(kind)
+	f.setParentsNamed(0, []string{"l1"})
+	f.setParentsNamed(1, []string{"l0"})
+	_, err := f.locs[0].ListRules(f.ctx, true)
+	vassert(err != nil, "ancestor-loop-reported")
+	_, err = f.locs[0].ListRules(f.ctx, false)
+	vassert(err == nil, "own-rules-listed-without-walking")
+	vreach("end")
+}
